@@ -76,6 +76,11 @@ class SampleFile:
     def n_words(self) -> int:
         return len(self.pcm) // 2
 
+    @property
+    def is_sample(self) -> bool:
+        """False for directory slots that are not sample files (deleted entries, other or unknown file types)."""
+        return self.raw_entry is None and self.type_byte in (0xF3, 0x73)
+
     def body(self) -> bytes:
         if self.raw_body is not None:
             return self.raw_body
@@ -116,6 +121,7 @@ class Partition:
     volumes: List[Volume] = field(default_factory=list)
     size_sectors: int = 64
     sat_overrides: Dict[int, int] = field(default_factory=dict)
+    slots: Optional[List[int]] = None     # strictly increasing volume-table slots (0..99) of `volumes`; None = 0..n-1 (packed)
 
 
 class Allocator:
@@ -206,9 +212,11 @@ def partition_bytes(p: Partition, alloc: Optional[Allocator] = None) -> bytes:
                 sat[s] = v.res_flag
         else:
             put_chain(ds, bytes(table))
+    slots = list(range(len(p.volumes))) if p.slots is None else list(p.slots)
+    assert len(slots) == len(p.volumes) and slots == sorted(set(slots)) and all(0 <= k < VOLUME_ENTRIES for k in slots), slots
     for i in range(VOLUME_ENTRIES):
-        if i < len(p.volumes):
-            v = p.volumes[i]
+        if i in slots:
+            v = p.volumes[slots.index(i)]
             vol_entries += akai_name(v.name) + struct.pack("<HH", v.vtype, v.dir_sectors[0])
         else:
             vol_entries += akai_name("") + struct.pack("<HH", 0, 0)
